@@ -44,6 +44,138 @@ theorem wf_pushObj_nonseq {h : Heap} (w : WF h) (o : Obj) (ho : ∀ p, o ≠ .se
   · exact w p hp
   · exact absurd hp.symm (ho p)
 
+/-! ### variables and grids: reads only append to the log, results are fresh objects -/
+
+/-- `h'` differs from `h` by GETs appended to the log only -/
+structure LogOnly (h h' : Heap) : Prop where
+  tm : h'.tmpls = h.tmpls
+  ob : h'.objs = h.objs
+  sr : h'.src = h.src
+  lg : ∃ l, h'.log = h.log ++ l
+
+theorem LogOnly.refl (h : Heap) : LogOnly h h := ⟨rfl, rfl, rfl, ⟨[], by simp⟩⟩
+
+theorem LogOnly.trans {a b c : Heap} (h1 : LogOnly a b) (h2 : LogOnly b c) : LogOnly a c := by
+  refine ⟨h2.tm.trans h1.tm, h2.ob.trans h1.ob, h2.sr.trans h1.sr, ?_⟩
+  obtain ⟨l1, e1⟩ := h1.lg; obtain ⟨l2, e2⟩ := h2.lg
+  exact ⟨l1 ++ l2, by rw [e2, e1, List.append_assoc]⟩
+
+theorem logOnly_pushLog (h : Heap) (s : Sess) (q : Req) : LogOnly h (pushLog h s q) :=
+  ⟨rfl, rfl, rfl, ⟨[(s, q)], rfl⟩⟩
+
+theorem LogOnly.extends {h h' : Heap} (l : LogOnly h h') : Extends h h' :=
+  ⟨by rw [l.tm]; exact Nat.le_refl _, fun _ _ => by rw [l.tm], by rw [l.ob]; exact Nat.le_refl _,
+   fun _ _ => by rw [l.ob], l.lg⟩
+
+theorem LogOnly.wf {h h' : Heap} (l : LogOnly h h') (w : WF h) : WF h' := by
+  intro p hp; rw [l.ob] at hp; rw [l.tm]; exact w p hp
+
+theorem readData_logOnly (h : Heap) (d : Data) (idx : List Idx) : LogOnly h (readData h d idx).1 := by
+  cases d with
+  | proxy r =>
+    simp only [readData]
+    split
+    · exact logOnly_pushLog _ _ _
+    · exact LogOnly.refl _
+  | vals a => exact LogOnly.refl _
+
+theorem gridLoop_logOnly (h : Heap) (kids : List Nat) (ixs : List (List Idx)) :
+    LogOnly h (gridLoop h kids ixs).1 := by
+  induction kids generalizing h ixs with
+  | nil => simp only [gridLoop]; exact LogOnly.refl _
+  | cons k ks ih =>
+    cases ixs with
+    | nil =>
+      simp only [gridLoop]
+      split
+      · exact ih h []
+      · exact LogOnly.refl _
+    | cons ix ixs =>
+      simp only [gridLoop]
+      split
+      · split
+        · exact (readData_logOnly h _ ix).trans (ih _ _)
+        · exact readData_logOnly h _ ix
+      · exact LogOnly.refl _
+
+/-- the children of the result of `GridType.__getitem__` are variables -/
+theorem gridLoop_vars (h : Heap) (kids : List Nat) (ixs : List (List Idx)) (l : List Obj)
+    (e : (gridLoop h kids ixs).2 = some l) : ∀ o ∈ l, ∃ id d, o = Obj.var id d := by
+  induction kids generalizing h ixs l with
+  | nil => simp only [gridLoop, Option.some.injEq] at e; subst e; intro o ho; cases ho
+  | cons k ks ih =>
+    cases ixs with
+    | nil =>
+      simp only [gridLoop] at e
+      split at e
+      · obtain ⟨l', hr, rfl⟩ := Option.map_eq_some_iff.mp e
+        intro o ho
+        rcases List.mem_cons.mp ho with rfl | ho
+        · exact ⟨_, _, rfl⟩
+        · exact ih h [] l' hr o ho
+      · simp at e
+    | cons ix ixs =>
+      simp only [gridLoop] at e
+      split at e
+      · split at e
+        · obtain ⟨l', hr, rfl⟩ := Option.map_eq_some_iff.mp e
+          intro o ho
+          rcases List.mem_cons.mp ho with rfl | ho
+          · exact ⟨_, _, rfl⟩
+          · exact ih _ ixs l' hr o ho
+        · simp at e
+      · simp at e
+
+theorem extends_pushObjs (h : Heap) (l : List Obj) : Extends h (pushObjs h l) := by
+  refine ⟨Nat.le_refl _, fun _ _ => rfl, by simp [pushObjs], ?_, ⟨[], by simp [pushObjs]⟩⟩
+  intro r hr; simp [pushObjs, List.getElem?_append_left hr]
+
+theorem wf_pushObjs_nonseq {h : Heap} (w : WF h) (l : List Obj) (ho : ∀ o ∈ l, ∀ p, o ≠ .seq p) :
+    WF (pushObjs h l) := by
+  intro p hp
+  simp only [pushObjs, List.mem_append] at hp
+  rcases hp with hp | hp
+  · exact w p hp
+  · exact absurd rfl (ho _ hp p)
+
+theorem varGetitem_extends (h : Heap) (w : WF h) (r : Nat) (idx : List Idx) :
+    Extends h (varGetitem h r idx) ∧ WF (varGetitem h r idx) := by
+  unfold varGetitem
+  split
+  · rename_i id d _
+    have l := readData_logOnly h d idx
+    split
+    · exact ⟨l.extends.trans (extends_pushObj _ _), wf_pushObj_nonseq (l.wf w) _ (by intro p hp; cases hp)⟩
+    · exact ⟨l.extends, l.wf w⟩
+  · exact ⟨Extends.refl h, w⟩
+
+theorem gridFinish_extends (h : Heap) (w : WF h) (kids : List Nat) (ixs : List (List Idx)) :
+    Extends h (gridFinish (gridLoop h kids ixs)) ∧ WF (gridFinish (gridLoop h kids ixs)) := by
+  have l := gridLoop_logOnly h kids ixs
+  unfold gridFinish
+  split
+  · rename_i newKids hk
+    have hv := gridLoop_vars h _ _ newKids hk
+    refine ⟨(l.extends.trans (extends_pushObjs _ _)).trans (extends_pushObj _ _),
+      wf_pushObj_nonseq (wf_pushObjs_nonseq (l.wf w) _ ?_) _ (by intro p hp; cases hp)⟩
+    intro o ho p hp
+    obtain ⟨id, d', e⟩ := hv o ho
+    rw [e] at hp; cases hp
+  · exact ⟨l.extends, l.wf w⟩
+
+theorem gridGetitemHeap_extends (h : Heap) (w : WF h) (r : Nat) (key : List Idx) :
+    Extends h (gridGetitemHeap h r key) ∧ WF (gridGetitemHeap h r key) := by
+  unfold gridGetitemHeap
+  split
+  · split
+    · exact ⟨Extends.refl h, w⟩
+    · split
+      · split
+        · exact gridFinish_extends h w _ _
+        · exact ⟨Extends.refl h, w⟩
+      · exact varGetitem_extends h w _ key
+  · exact ⟨Extends.refl h, w⟩
+
 /-- `__copy__` allocates: the old heap is extended, the copy's template is the fresh cell -/
 theorem seqCopy_spec {h h1 : Heap} {p out : SeqProxy} (e : seqCopy h p = some (h1, out)) :
     ∃ t, h.tmpls[p.template]? = some t ∧ h1 = { h with tmpls := h.tmpls ++ [t] } ∧
@@ -207,6 +339,8 @@ theorem step_extends (h : Heap) (w : WF h) (e : Ev) : Extends h (step h e) ∧ W
               · exact w p hm
               · cases hm
       | _ => exact ⟨Extends.refl h, w⟩
+  | vget r idx => exact varGetitem_extends h w r idx
+  | ggrid r key => exact gridGetitemHeap_extends h w r key
 
 theorem run_extends (h : Heap) (w : WF h) (evs : List Ev) : Extends h (run h evs) ∧ WF (run h evs) := by
   induction evs generalizing h with
@@ -242,6 +376,308 @@ theorem obs_extends {h h' : Heap} (w : WF h) (ex : Extends h h') (r : Nat) (hr :
     rw [ex.tm p.template (w p hmem)]
   | _ => rfl
 
+/-! ### the deep view of a grid: its children, their data, the proxies behind them -/
+
+/-- what a variable's data is, with a proxy resolved to its observable (id, stored slice, session) -/
+inductive DataView where
+  | proxy (vid : Name) (slice : List Idx) (session : Sess)
+  | vals (axes : List (Bool × List Nat))
+deriving DecidableEq, Repr
+
+def dataView (h : Heap) : Data → Option DataView
+  | .vals a => some (.vals a)
+  | .proxy k => match h.objs[k]? with
+    | some (.arr p) => some (.proxy p.vid p.slice p.session)
+    | _ => none
+
+def varView (h : Heap) (k : Nat) : Option (Name × DataView) :=
+  match h.objs[k]? with
+  | some (.var id d) => (dataView h d).map fun v => (id, v)
+  | _ => none
+
+def kidsView (h : Heap) : List Nat → Option (List (Name × DataView))
+  | [] => some []
+  | k :: ks => match varView h k, kidsView h ks with
+    | some v, some vs => some (v :: vs)
+    | _, _ => none
+
+/-- a grid seen through all its references: `_output_grid`, and for every child (array first, then
+    the maps) its id and data -/
+def gridView (h : Heap) (r : Nat) : Option (Bool × List (Name × DataView)) :=
+  match h.objs[r]? with
+  | some (.grid ks og) => (kidsView h ks).map fun vs => (og, vs)
+  | _ => none
+
+theorem strip_eq_nonres {o' o : Obj} (e : strip o' = strip o) (hn : ∀ b i s l, o ≠ .res b i s l) : o' = o := by
+  cases o with
+  | res b i s l => exact absurd rfl (hn b i s l)
+  | _ => cases o' <;> simp_all [strip]
+
+/-- allocated objects other than the result cache of a `ServerFunctionResult` never change -/
+theorem objs_stable {h h' : Heap} (ex : Extends h h') {k : Nat} {o : Obj} (hk : h.objs[k]? = some o)
+    (hn : ∀ b i s l, o ≠ .res b i s l) : h'.objs[k]? = some o := by
+  have hlt : k < h.objs.length := (List.getElem?_eq_some_iff.mp hk).1
+  have hob := ex.ob k hlt
+  rw [hk] at hob
+  cases ho' : h'.objs[k]? with
+  | none => rw [ho'] at hob; simp at hob
+  | some o' =>
+    rw [ho'] at hob
+    simp only [Option.map_some, Option.some.injEq] at hob
+    rw [strip_eq_nonres hob hn]
+
+theorem dataView_extends {h h' : Heap} (ex : Extends h h') {d : Data} {v : DataView}
+    (e : dataView h d = some v) : dataView h' d = some v := by
+  cases d with
+  | vals a => exact e
+  | proxy k =>
+    simp only [dataView] at e ⊢
+    split at e
+    · rename_i p hp
+      rw [objs_stable ex hp (by intro b i s l hh; cases hh)]; exact e
+    · cases e
+
+theorem varView_extends {h h' : Heap} (ex : Extends h h') {k : Nat} {v : Name × DataView}
+    (e : varView h k = some v) : varView h' k = some v := by
+  simp only [varView] at e ⊢
+  split at e
+  · rename_i id d hk
+    rw [objs_stable ex hk (by intro b i s l hh; cases hh)]
+    obtain ⟨dv, hd, rfl⟩ := Option.map_eq_some_iff.mp e
+    simp only [dataView_extends ex hd, Option.map_some]
+  · cases e
+
+theorem kidsView_extends {h h' : Heap} (ex : Extends h h') (ks : List Nat) {vs : List (Name × DataView)}
+    (e : kidsView h ks = some vs) : kidsView h' ks = some vs := by
+  induction ks generalizing vs with
+  | nil => exact e
+  | cons k ks ih =>
+    simp only [kidsView] at e ⊢
+    cases hv : varView h k with
+    | none => simp [hv] at e
+    | some v =>
+      cases hvs : kidsView h ks with
+      | none => simp [hv, hvs] at e
+      | some vs' =>
+        simp only [hv, hvs] at e
+        rw [varView_extends ex hv, ih hvs]; exact e
+
+theorem gridView_extends {h h' : Heap} (ex : Extends h h') {r : Nat} {v : Bool × List (Name × DataView)}
+    (e : gridView h r = some v) : gridView h' r = some v := by
+  simp only [gridView] at e ⊢
+  split at e
+  · rename_i ks og hk
+    rw [objs_stable ex hk (by intro b i s l hh; cases hh)]
+    obtain ⟨vs, hvs, rfl⟩ := Option.map_eq_some_iff.mp e
+    simp only [kidsView_extends ex ks hvs, Option.map_some]
+  · cases e
+
+/-! ### what a grid read returns does not depend on the history before it -/
+
+theorem getitem_src {h h2 : Heap} {p out : SeqProxy} {k : DKey}
+    (e : seqGetitemWith seqCopy h p k = some (h2, out)) : h2.src = h.src := by
+  unfold seqGetitemWith at e
+  cases hc : seqCopy h p with
+  | none => simp [hc] at e
+  | some r =>
+    obtain ⟨h1, o1⟩ := r
+    simp only [hc] at e
+    obtain ⟨t, ht, rfl, rfl⟩ := seqCopy_spec hc
+    cases k <;> simp only [seqApply] at e <;> (repeat' split at e) <;>
+      first
+      | (simp only [Option.some.injEq, Prod.mk.injEq] at e; rw [← e.1])
+      | simp at e
+
+theorem varGetitem_src (h : Heap) (r : Nat) (idx : List Idx) : (varGetitem h r idx).src = h.src := by
+  unfold varGetitem
+  split
+  · split
+    · exact (readData_logOnly h _ idx).sr
+    · exact (readData_logOnly h _ idx).sr
+  · rfl
+
+theorem gridGetitemHeap_src (h : Heap) (r : Nat) (key : List Idx) : (gridGetitemHeap h r key).src = h.src := by
+  unfold gridGetitemHeap
+  split
+  · split
+    · rfl
+    · split
+      · split
+        · unfold gridFinish
+          split
+          · exact (gridLoop_logOnly h _ _).sr
+          · exact (gridLoop_logOnly h _ _).sr
+        · rfl
+      · exact varGetitem_src h _ key
+  · rfl
+
+theorem step_src (h : Heap) (e : Ev) : (step h e).src = h.src := by
+  cases e with
+  | vget r idx => exact varGetitem_src h r idx
+  | ggrid r key => exact gridGetitemHeap_src h r key
+  | getitem r k =>
+    simp only [step, stepWith]
+    split
+    · split
+      · rename_i hg; have hs := getitem_src hg; exact hs
+      · rfl
+    · rfl
+  | copy r =>
+    simp only [step, stepWith]
+    split
+    · split
+      · rename_i hc; obtain ⟨t, ht, rfl, rfl⟩ := seqCopy_spec hc; rfl
+      · rfl
+    · rfl
+  | _ => simp only [step, stepWith] <;> (repeat' split) <;> rfl
+
+theorem run_src (h : Heap) (evs : List Ev) : (run h evs).src = h.src := by
+  induction evs generalizing h with
+  | nil => rfl
+  | cons e es ih => exact (ih (step h e)).trans (step_src h e)
+/-- `h'` holds every non-cache object of `h` unchanged and talks to the same server -/
+def Stable (h h' : Heap) : Prop :=
+  (∀ (k : Nat) (o : Obj), h.objs[k]? = some o → (∀ b i s l, o ≠ Obj.res b i s l) → h'.objs[k]? = some o) ∧ h'.src = h.src
+
+theorem Stable.logOnly {h h' h1 h1' : Heap} (s : Stable h h') (l : LogOnly h h1) (l' : LogOnly h' h1') :
+    Stable h1 h1' := by
+  refine ⟨?_, by rw [l'.sr, l.sr]; exact s.2⟩
+  intro k o hk hn
+  rw [l.ob] at hk; rw [l'.ob]; exact s.1 k o hk hn
+
+theorem readData_stable {h h' : Heap} (s : Stable h h') (d : Data) (ix : List Idx) {ax}
+    (e : (readData h d ix).2 = some ax) : (readData h' d ix).2 = some ax := by
+  cases d with
+  | vals a => exact e
+  | proxy r =>
+    simp only [readData] at e ⊢
+    split at e
+    · rename_i p hp
+      rw [s.1 r _ hp (by intro b i s l hh; cases hh)]
+      simp only at e ⊢
+      rw [s.2]; exact e
+    · cases e
+
+/-- what reading the children `kids` with the index lists `ixs` returns now, it returns after any
+    changes that leave the objects in place -/
+theorem gridLoop_stable {h h' : Heap} (s : Stable h h') (kids : List Nat) (ixs : List (List Idx)) {l : List Obj}
+    (e : (gridLoop h kids ixs).2 = some l) : (gridLoop h' kids ixs).2 = some l := by
+  induction kids generalizing h h' ixs l with
+  | nil => simp only [gridLoop] at e ⊢; exact e
+  | cons k ks ih =>
+    cases ixs with
+    | nil =>
+      simp only [gridLoop] at e ⊢
+      split at e
+      · rename_i id d hk
+        rw [s.1 k _ hk (by intro b i s l hh; cases hh)]
+        obtain ⟨l', hr, rfl⟩ := Option.map_eq_some_iff.mp e
+        simp only [ih s [] hr, Option.map_some]
+      · cases e
+    | cons ix ixs =>
+      simp only [gridLoop] at e ⊢
+      split at e
+      · rename_i id d hk
+        rw [s.1 k _ hk (by intro b i s l hh; cases hh)]
+        simp only
+        split at e
+        · rename_i ax hax
+          rw [readData_stable s d ix hax]
+          simp only
+          obtain ⟨l', hr, rfl⟩ := Option.map_eq_some_iff.mp e
+          have s1 := s.logOnly (readData_logOnly h d ix) (readData_logOnly h' d ix)
+          simp only [ih s1 ixs hr, Option.map_some]
+        · cases e
+      · cases e
+
+theorem Stable.of_extends {h h' : Heap} (ex : Extends h h') (hs : h'.src = h.src) : Stable h h' :=
+  ⟨fun _ _ hk hn => objs_stable ex hk hn, hs⟩
+
+/-- the children of the grid that `grid[key]` returns (`output_grid` on), `none` when the read raises
+    or `r` is not such a grid -/
+def gridResult (h : Heap) (r : Nat) (key : List Idx) : Option (List Obj) :=
+  match h.objs[r]? with
+  | some (.grid kids true) =>
+    match kids.head? with
+    | some a => match h.objs[a]? with
+      | some (.var _ d) => (gridLoop h kids (gridIndexLists (dataRank h d) key)).2
+      | _ => none
+    | none => none
+  | _ => none
+
+theorem gridResult_stable {h h' : Heap} (s : Stable h h') (r : Nat) (key : List Idx) {l : List Obj}
+    (e : gridResult h r key = some l) : gridResult h' r key = some l := by
+  unfold gridResult at e ⊢
+  split at e
+  · rename_i kids hk
+    rw [s.1 r _ hk (by intro b i s l hh; cases hh)]
+    simp only
+    cases kids with
+    | nil => simp at e
+    | cons a ks =>
+      simp only [List.head?_cons] at e ⊢
+      split at e
+      · rename_i id d ha
+        rw [s.1 a _ ha (by intro b i s l hh; cases hh)]
+        simp only
+        have hr : dataRank h' d = dataRank h d := by
+          cases d with
+          | vals ax => rfl
+          | proxy p =>
+            simp only [dataRank]
+            cases hp : h.objs[p]? with
+            | none =>
+              exfalso
+              simp only [gridIndexLists, gridLoop, ha, readData, hp] at e
+              cases e
+            | some o =>
+              cases o with
+              | arr q => rw [s.1 p _ hp (by intro b i s l hh; cases hh)]
+              | _ =>
+                exfalso
+                simp only [gridIndexLists, gridLoop, ha, readData, hp] at e
+                cases e
+        rw [hr]
+        exact gridLoop_stable s _ _ e
+      · cases e
+  · cases e
+
+/-- the array `variable[idx]` returns (also `grid[key]` with `output_grid` off, which is `grid.array[key]`) -/
+def varResult (h : Heap) (r : Nat) (idx : List Idx) : Option (List (Bool × List Nat)) :=
+  match h.objs[r]? with
+  | some (.var _ d) => (readData h d idx).2
+  | _ => none
+
+theorem varResult_stable {h h' : Heap} (s : Stable h h') (r : Nat) (idx : List Idx) {ax : List (Bool × List Nat)}
+    (e : varResult h r idx = some ax) : varResult h' r idx = some ax := by
+  unfold varResult at e ⊢
+  split at e
+  · rename_i id d hk
+    rw [s.1 r _ hk (by intro b i s l hh; cases hh)]
+    exact readData_stable s d idx e
+  · cases e
+
+/-- `grid[key]` allocates exactly the children `gridResult` lists, then the new grid referring to them -/
+theorem ggrid_objs (h : Heap) (r : Nat) (key : List Idx) {l : List Obj} (e : gridResult h r key = some l) :
+    (step h (.ggrid r key)).objs
+      = h.objs ++ l ++ [Obj.grid ((List.range l.length).map fun i => h.objs.length + i) true] := by
+  unfold gridResult at e
+  simp only [step, stepWith, gridGetitemHeap]
+  split at e
+  · rename_i kids hk
+    rw [hk]
+    simp only
+    cases kids with
+    | nil => simp at e
+    | cons a ks =>
+      simp only [List.head?_cons] at e ⊢
+      split at e
+      · rename_i id d ha
+        rw [ha]
+        simp only [if_true, gridFinish, e, pushObj, pushObjs, (gridLoop_logOnly h _ _).ob]
+      · cases e
+  · cases e
+
 /-! ### sessions -/
 
 def objSess : Obj → Sess
@@ -250,19 +686,41 @@ def objSess : Obj → Sess
   | .fns _ s => s
   | .fn _ _ s => s
   | .res _ _ s _ => s
+  | .var _ _ => none
+  | .grid _ _ => none
 
-/-- every object carries `σ` and every GET so far went through `σ` -/
+/-- the objects that carry a session: proxies and the server-function chain.  `BaseType` and
+    `GridType` objects carry none — their requests are made by the proxy their data refers to. -/
+def carries : Obj → Bool
+  | .var _ _ => false
+  | .grid _ _ => false
+  | _ => true
+
+/-- every session-carrying object carries `σ` and every GET so far went through `σ` -/
 def SessInv (σ : Sess) (h : Heap) : Prop :=
-  (∀ o ∈ h.objs, objSess o = σ) ∧ (∀ e ∈ h.log, e.1 = σ)
+  (∀ o ∈ h.objs, carries o = true → objSess o = σ) ∧ (∀ e ∈ h.log, e.1 = σ)
 
 theorem sessInv_pushObj {σ : Sess} {h : Heap} (i : SessInv σ h) (o : Obj) (ho : objSess o = σ) :
     SessInv σ (pushObj h o) := by
   refine ⟨?_, i.2⟩
-  intro o' ho'
+  intro o' ho' _
   simp only [pushObj, List.mem_append, List.mem_singleton] at ho'
   rcases ho' with h1 | h1
-  · exact i.1 o' h1
+  · exact i.1 o' h1 (by assumption)
   · rw [h1]; exact ho
+
+theorem sessInv_pushObjs_nc {σ : Sess} {h : Heap} (i : SessInv σ h) (l : List Obj)
+    (hl : ∀ o ∈ l, carries o = false) : SessInv σ (pushObjs h l) := by
+  refine ⟨?_, i.2⟩
+  intro o' ho' hc
+  simp only [pushObjs, List.mem_append] at ho'
+  rcases ho' with h1 | h1
+  · exact i.1 o' h1 hc
+  · rw [hl o' h1] at hc; cases hc
+
+theorem sessInv_pushObj_nc {σ : Sess} {h : Heap} (i : SessInv σ h) (o : Obj)
+    (ho : carries o = false) : SessInv σ (pushObj h o) :=
+  sessInv_pushObjs_nc i [o] (by intro o' h'; rw [List.mem_singleton.mp h']; exact ho)
 
 theorem sessInv_pushLog {σ : Sess} {h : Heap} (i : SessInv σ h) (q : Req) : SessInv σ (pushLog h σ q) := by
   refine ⟨i.1, ?_⟩
@@ -272,8 +730,70 @@ theorem sessInv_pushLog {σ : Sess} {h : Heap} (i : SessInv σ h) (q : Req) : Se
   · exact i.2 e h1
   · rw [h1]
 
+theorem readData_sessInv (σ : Sess) (h : Heap) (i : SessInv σ h) (d : Data) (idx : List Idx) :
+    SessInv σ (readData h d idx).1 := by
+  cases d with
+  | proxy r =>
+    simp only [readData]
+    split
+    · rename_i p hr
+      have : p.session = σ := i.1 _ (List.mem_of_getElem? hr) rfl
+      rw [this]; exact sessInv_pushLog i _
+    · exact i
+  | vals a => exact i
+
+theorem gridLoop_sessInv (σ : Sess) (h : Heap) (i : SessInv σ h) (kids : List Nat) (ixs : List (List Idx)) :
+    SessInv σ (gridLoop h kids ixs).1 := by
+  induction kids generalizing h ixs with
+  | nil => simp only [gridLoop]; exact i
+  | cons k ks ih =>
+    cases ixs with
+    | nil =>
+      simp only [gridLoop]
+      split
+      · exact ih h i []
+      · exact i
+    | cons ix ixs =>
+      simp only [gridLoop]
+      split
+      · split
+        · exact ih _ (readData_sessInv σ h i _ ix) _
+        · exact readData_sessInv σ h i _ ix
+      · exact i
+
+theorem varGetitem_sessInv (σ : Sess) (h : Heap) (i : SessInv σ h) (r : Nat) (idx : List Idx) :
+    SessInv σ (varGetitem h r idx) := by
+  unfold varGetitem
+  split
+  · split
+    · exact sessInv_pushObj_nc (readData_sessInv σ h i _ idx) _ rfl
+    · exact readData_sessInv σ h i _ idx
+  · exact i
+
+theorem gridGetitemHeap_sessInv (σ : Sess) (h : Heap) (i : SessInv σ h) (r : Nat) (key : List Idx) :
+    SessInv σ (gridGetitemHeap h r key) := by
+  unfold gridGetitemHeap
+  split
+  · split
+    · exact i
+    · split
+      · split
+        · unfold gridFinish
+          split
+          · rename_i newKids hk
+            have hv := gridLoop_vars h _ _ newKids hk
+            refine sessInv_pushObj_nc (sessInv_pushObjs_nc (gridLoop_sessInv σ h i _ _) _ ?_) _ rfl
+            intro o ho
+            obtain ⟨id, d', e⟩ := hv o ho
+            rw [e]; rfl
+          · exact gridLoop_sessInv σ h i _ _
+        · exact i
+      · exact varGetitem_sessInv σ h i _ key
+  · exact i
+
 theorem step_sessInv (σ : Sess) (h : Heap) (i : SessInv σ h) (e : Ev) : SessInv σ (step h e) := by
-  have hget : ∀ r o, h.objs[r]? = some o → objSess o = σ := fun r o hr => i.1 o (List.mem_of_getElem? hr)
+  have hget : ∀ r o, h.objs[r]? = some o → carries o = true → objSess o = σ :=
+    fun r o hr => i.1 o (List.mem_of_getElem? hr)
   cases e with
   | copy r =>
     simp only [step, stepWith]
@@ -288,7 +808,7 @@ theorem step_sessInv (σ : Sess) (h : Heap) (i : SessInv σ h) (e : Ev) : SessIn
         | some res =>
           obtain ⟨h1, out⟩ := res
           obtain ⟨t, ht, rfl, rfl⟩ := seqCopy_spec hc
-          exact sessInv_pushObj (h := { h with tmpls := h.tmpls ++ [t] }) i _ (by have := hget r _ hr; exact this)
+          exact sessInv_pushObj (h := { h with tmpls := h.tmpls ++ [t] }) i _ (by have := hget r _ hr rfl; exact this)
       | _ => exact i
   | getitem r k =>
     simp only [step, stepWith]
@@ -325,7 +845,7 @@ theorem step_sessInv (σ : Sess) (h : Heap) (i : SessInv σ h) (e : Ev) : SessIn
                   · simp only [Option.some.injEq, Prod.mk.injEq] at hg; rw [← hg.1]
                 all_goals (simp only [Option.some.injEq, Prod.mk.injEq] at hg; rw [← hg.1])
               rw [hl]; exact i.2
-          exact sessInv_pushObj i2 _ (by simp only [objSess]; rw [hs]; exact hget r _ hr)
+          exact sessInv_pushObj i2 _ (by simp only [objSess]; rw [hs]; exact hget r _ hr rfl)
       | _ => exact i
   | iter r =>
     simp only [step, stepWith]
@@ -338,7 +858,7 @@ theorem step_sessInv (σ : Sess) (h : Heap) (i : SessInv σ h) (e : Ev) : SessIn
         cases h.tmpls[p.template]? with
         | none => exact i
         | some t =>
-          have : p.session = σ := hget r _ hr
+          have : p.session = σ := hget r _ hr rfl
           rw [this]; exact sessInv_pushLog i _
       | _ => exact i
   | aget r idx =>
@@ -348,7 +868,7 @@ theorem step_sessInv (σ : Sess) (h : Heap) (i : SessInv σ h) (e : Ev) : SessIn
     | some o =>
       cases o with
       | arr p =>
-        have : p.session = σ := hget r _ hr
+        have : p.session = σ := hget r _ hr rfl
         simp only; rw [this]; exact sessInv_pushLog i _
       | _ => exact i
   | fattr r name =>
@@ -357,7 +877,7 @@ theorem step_sessInv (σ : Sess) (h : Heap) (i : SessInv σ h) (e : Ev) : SessIn
     | none => exact i
     | some o =>
       cases o with
-      | fns b s => exact sessInv_pushObj i _ (by have := hget r _ hr; exact this)
+      | fns b s => exact sessInv_pushObj i _ (by have := hget r _ hr rfl; exact this)
       | _ => exact i
   | fcall r args =>
     simp only [step, stepWith]
@@ -365,7 +885,7 @@ theorem step_sessInv (σ : Sess) (h : Heap) (i : SessInv σ h) (e : Ev) : SessIn
     | none => exact i
     | some o =>
       cases o with
-      | fn b n s => exact sessInv_pushObj i _ (by have := hget r _ hr; exact this)
+      | fn b n s => exact sessInv_pushObj i _ (by have := hget r _ hr rfl; exact this)
       | _ => exact i
   | rget r dec =>
     simp only [step, stepWith]
@@ -377,7 +897,7 @@ theorem step_sessInv (σ : Sess) (h : Heap) (i : SessInv σ h) (e : Ev) : SessIn
         cases loaded with
         | true => exact i
         | false =>
-          have hs : s = σ := hget r _ hr
+          have hs : s = σ := hget r _ hr rfl
           subst hs
           cases dec with
           | false => exact sessInv_pushLog i _
@@ -385,12 +905,14 @@ theorem step_sessInv (σ : Sess) (h : Heap) (i : SessInv σ h) (e : Ev) : SessIn
             simp only [if_true]
             have i2 := sessInv_pushLog (sessInv_pushLog i ⟨b, .dods, [id], [], []⟩) ⟨b, .das, [id], [], []⟩
             refine ⟨?_, i2.2⟩
-            intro o ho
+            intro o ho hc
             have := List.mem_or_eq_of_mem_set ho
             rcases this with hm | hm
-            · exact i2.1 o hm
+            · exact i2.1 o hm hc
             · rw [hm]; rfl
       | _ => exact i
+  | vget r idx => exact varGetitem_sessInv σ h i r idx
+  | ggrid r key => exact gridGetitemHeap_sessInv σ h i r key
 
 theorem run_sessInv (σ : Sess) (h : Heap) (i : SessInv σ h) (evs : List Ev) : SessInv σ (run h evs) := by
   induction evs generalizing h with
@@ -500,6 +1022,8 @@ theorem specAt_extends {h h' : Heap} (w : WF h) (ex : Extends h h') (r : Nat) (h
   | fns b s => rw [ho] at hob; cases ho2 : h'.objs[r] <;> simp [ho2, strip] at hob ⊢
   | fn b n s => rw [ho] at hob; cases ho2 : h'.objs[r] <;> simp [ho2, strip] at hob ⊢
   | res b i s l => rw [ho] at hob; cases ho2 : h'.objs[r] <;> simp [ho2, strip] at hob ⊢
+  | var i d => rw [ho] at hob; cases ho2 : h'.objs[r] <;> simp [ho2, strip] at hob ⊢
+  | grid ks og => rw [ho] at hob; cases ho2 : h'.objs[r] <;> simp [ho2, strip] at hob ⊢
 
 theorem getitem_isSome {h : Heap} {p : SeqProxy} {k : DKey} {t : Tmpl}
     (ht : h.tmpls[p.template]? = some t) (hs : (specStep (specOf t p) k).isSome) :
